@@ -1452,9 +1452,12 @@ class PRUDPServerTransport:
 		data = self.packet_encoder.encode(packet)
 		await self.sendto(data, addr)
 		
+	def decoder(self, addr):
+		return self.packet_encoder
+		
 	async def process_data(self, data, addr):
 		try:
-			packets = self.packet_encoder.decode(data)
+			packets = self.decoder(addr).decode(data)
 			for packet in packets:
 				await self.process_packet(packet, addr)
 		except Exception as e:
@@ -1490,15 +1493,23 @@ class PRUDPSocketTransport(PRUDPServerTransport):
 	def __init__(self, settings, addr):
 		super().__init__(settings)
 		self.clients = {}
+		self.decoders = {}
 		self.addr = addr
 	
 	async def handle(self, client):
 		address = client.remote_address()
 		self.clients[address] = client
+		# The lite decoder keeps a reassembly buffer, so every stream
+		# connection needs a decoder of its own.
+		self.decoders[address] = PRUDPMessageSelector(self.settings)
 		try:
 			await self.process(client, address)
 		finally:
 			del self.clients[address]
+			del self.decoders[address]
+	
+	def decoder(self, addr):
+		return self.decoders[addr]
 	
 	async def process(self, client, addr):
 		while True:
